@@ -45,17 +45,18 @@ def main(argv=None):
     argv = list(sys.argv[1:] if argv is None else argv)
     if os.environ.get("SA_NORMALISE", "") in ("1", "2") or "--replay" in argv:
         return _main(argv)
-    buf = io.StringIO()
-    with contextlib.redirect_stdout(buf):
+    buf, ebuf = io.StringIO(), io.StringIO()
+    with contextlib.redirect_stdout(buf), contextlib.redirect_stderr(ebuf):
         rc = _main(argv)
     if rc == 0:
+        sys.stderr.write(ebuf.getvalue())
         sys.stdout.write(buf.getvalue())
         return 0
     for mode, label in (("1", "N1"), ("2", "N1+N2")):
         os.environ["SA_NORMALISE"] = mode
         buf2 = io.StringIO()
         try:
-            with contextlib.redirect_stdout(buf2):
+            with contextlib.redirect_stdout(buf2), contextlib.redirect_stderr(io.StringIO()):
                 rc2 = _main(argv)
         finally:
             os.environ.pop("SA_NORMALISE", None)
@@ -67,8 +68,9 @@ def main(argv=None):
                   f"(N1 private helpers inlined into their callers: {', '.join(inl) or 'none'}; N2 loops over literal tables unrolled: {nun})")
             return 0
     # not clean on any form: the report on the tree as written stands (re-run to rewrite its evidence file)
-    with contextlib.redirect_stdout(io.StringIO()):
+    with contextlib.redirect_stdout(io.StringIO()), contextlib.redirect_stderr(io.StringIO()):
         _main(argv)
+    sys.stderr.write(ebuf.getvalue())
     sys.stdout.write(buf.getvalue())
     return rc
 
